@@ -836,3 +836,28 @@ def build_fixture(files, public_headers=()):
         return Program(info, facts, insts=())
     finally:
         shutil.rmtree(dest, ignore_errors=True)
+
+
+def dominators(prog, f):
+    """block id -> set of dominating block ids over the live, returning CFG"""
+    succ = {bid: [x for x in prog.live_succs(f, f.blocks[bid]) if x is not None] for bid in f.live}
+    preds = collections.defaultdict(set)
+    for a, ss in succ.items():
+        for s in ss:
+            preds[s].add(a)
+    nodes = set(f.live)
+    dom = {n: set(nodes) for n in nodes}
+    dom[f.entry] = {f.entry}
+    changed = True
+    while changed:
+        changed = False
+        for n in nodes:
+            if n == f.entry:
+                continue
+            ps = [dom[p] for p in preds[n] if p in dom]
+            new = set.intersection(*ps) if ps else set()
+            new = new | {n}
+            if new != dom[n]:
+                dom[n] = new
+                changed = True
+    return dom, succ
